@@ -281,6 +281,12 @@ func f1(x uint64) uint64 {
 	return use(St{v: x}) + 1
 }
 
+// f2 needs the same conversion at another call site
+func f2(x uint64) uint64 {
+	s := St{v: x + 1}
+	return use(s) + use(St{v: 2})
+}
+
 const K uint64 = 5 // trailing
 
 func arith(x uint64, y uint64) uint64 {
@@ -305,6 +311,7 @@ func partFlags(goose, work string, acc *ev.Acc) {
 	writeFile(mod, "q/a.go", flagFixture)
 	flags := []string{"-typecheck", "-source-comments", "-skip-interfaces"}
 	var base shape
+	var baseOrder []string
 	for mask := 0; mask < 8; mask++ {
 		var fl []string
 		for i, f := range flags {
@@ -331,9 +338,23 @@ func partFlags(goose, work string, acc *ev.Acc) {
 			continue
 		}
 		s := shapeOf(f)
+		order := func(o []string) string {
+			var keep []string
+			for _, n := range o {
+				if strings.Contains(n, "__to__") && mask&4 != 0 {
+					continue
+				}
+				keep = append(keep, n)
+			}
+			return strings.Join(keep, " ")
+		}
 		if mask == 0 {
 			base = s
+			baseOrder = f.Order
 			continue
+		}
+		if order(f.Order) != order(baseOrder) {
+			viol("definition-list-changed", fmt.Sprintf("the list of definitions changes under these flags:\n  without: %s\n  with:    %s", order(baseOrder), order(f.Order)))
 		}
 		for name, wb := range base.bodies {
 			gb, ok := s.bodies[name]
@@ -395,7 +416,7 @@ func main() {
 	os.RemoveAll(work)
 	os.Exit(acc.Done(ev.Finish{
 		Prop: "C05", Tier: *tier, Level: "exploration", Start: start,
-		Rule:        "(a) every string of <=2 (thorough <=3) tokens over {(*, *), (, *, ), \", newline, space, x, é} at 11 text positions (package / function / struct / constant doc comments, trailing constant comment, interpreted and raw string literals, panic message, log.Printf with interpreted and raw strings, fmt.Println), one package each, translated by the real goose; the file must lex under Coq's rules (nested comments, strings inside comments), Coq must see the same sentence list as with neutral text, and every body must equal the neutral body up to the literal itself (a rejected package is acceptable). (b) every parent/child/side nesting of the 10 arithmetic, 6 comparison and 2 boolean operators plus unary, call-argument, index, deref, field, conversion, store, condition, struct-literal, slice-bound, tuple and append contexts (thorough: + depth 3 over 5 non-associative operators), at two statement positions, read with Coq's precedences and interpreted: the value must equal Go's on 28 input vectors. (c) a fixture with an interface conversion, comments and constants under all 8 flag combinations: every definition body identical",
+		Rule:        "(a) every string of <=2 (thorough <=3) tokens over {(*, *), (, *, ), \", newline, space, x, é} at 11 text positions (package / function / struct / constant doc comments, trailing constant comment, interpreted and raw string literals, panic message, log.Printf with interpreted and raw strings, fmt.Println), one package each, translated by the real goose; the file must lex under Coq's rules (nested comments, strings inside comments), Coq must see the same sentence list as with neutral text, and every body must equal the neutral body up to the literal itself (a rejected package is acceptable). (b) every parent/child/side nesting of the 10 arithmetic, 6 comparison and 2 boolean operators plus unary, call-argument, index, deref, field, conversion, store, condition, struct-literal, slice-bound, tuple and append contexts (thorough: + depth 3 over 5 non-associative operators), at two statement positions, read with Coq's precedences and interpreted: the value must equal Go's on 28 input vectors. (c) a fixture with an interface conversion, comments and constants needed at three call sites, comments and constants under all 8 flag combinations: the same list of definitions (names, order, multiplicity) with identical bodies",
 		Assumptions: []string{"Coq's lexer and the levels of the GooseLang notations are modelled by mc/gl (standard levels for * + = < && || ~, level 35 for the backquoted infixes and shifts)", "nesting is judged by value on boundary inputs, not by tree isomorphism with the translator's internal tree"},
 		Extra:       map[string]any{"distinct_nontrivial": len(acc.Sets["nontrivial"])},
 	}))
